@@ -10,12 +10,48 @@ import (
 
 // GenParams draws a genesis configuration. Small option values are reachable through the
 // (unvalidated) genesis file exactly as the devnet command parameterises them.
+// U draws approximately uniform integers from a rapid.T (rapid's own integer generators are
+// biased towards small values); see Gen.Uniform.
+type U struct {
+	T    *rapid.T
+	salt uint64
+}
+
+func NewU(t *rapid.T) *U { return &U{T: t} }
+
+// N returns an approximately uniform integer in [0, n).
+func (u *U) N(n int, label string) int {
+	if n <= 1 {
+		return 0
+	}
+	u.salt++
+	x := rapid.Uint64().Draw(u.T, label) + u.salt*0x9e3779b97f4a7c15
+	x ^= x >> 30
+	x *= 0xbf58476d1ce4e5b9
+	x ^= x >> 27
+	x *= 0x94d049bb133111eb
+	x ^= x >> 31
+	return int(x % uint64(n))
+}
+
+// Range returns an approximately uniform integer in [lo, hi].
+func (u *U) Range(lo, hi int, label string) int { return lo + u.N(hi-lo+1, label) }
+
+// PickProfile draws a focus profile uniformly.
+func PickProfile(t *rapid.T) string {
+	return ProfileNames[NewU(t).N(len(ProfileNames), "profile")]
+}
+
 func GenParams(t *rapid.T, seedTag string) sim.Params {
 	p := sim.DefaultParams()
 	p.Seed = "s" + seedTag
-	nv := rapid.IntRange(1, 7).Draw(t, "nvals")
+	u := NewU(t)
+	nv := u.Range(1, 7, "nvals")
+	if nv < 3 && u.N(2, "nvals-more") == 0 {
+		nv += 3 // most block-level hooks need several validators
+	}
 	// fork shape: at 1 (EVM on, staking options forced to 64/500000), disabled, or mid-history
-	switch rapid.IntRange(0, 5).Draw(t, "fork") {
+	switch u.N(6, "fork") {
 	case 0:
 		p.Frankenstein = 0
 	case 1:
@@ -24,8 +60,8 @@ func GenParams(t *rapid.T, seedTag string) sim.Params {
 		p.Frankenstein = 1
 	}
 	p.MinSelfDeleg = int64(rapid.SampledFrom([]int{500000, 500000, 3000000, 10}).Draw(t, "minself"))
-	p.TopCount = int64(rapid.IntRange(1, 5).Draw(t, "top"))
-	p.Maturity = int64(rapid.IntRange(1, 6).Draw(t, "maturity"))
+	p.TopCount = int64(u.Range(1, 5, "top"))
+	p.Maturity = int64(u.Range(1, 6, "maturity"))
 	p.ValPower = nil
 	for i := 0; i < nv; i++ {
 		d := int64(rapid.SampledFrom([]int{0, 0, 1, 2, 5, 1000}).Draw(t, "powd"))
@@ -34,7 +70,7 @@ func GenParams(t *rapid.T, seedTag string) sim.Params {
 	p.ExtraVals = rapid.IntRange(1, 3).Draw(t, "extra")
 	p.Witnesses = nil
 	for i := 0; i < nv; i++ {
-		if rapid.IntRange(0, 3).Draw(t, "wit") != 0 {
+		if u.N(4, "wit") != 0 {
 			p.Witnesses = append(p.Witnesses, i)
 		}
 	}
@@ -42,26 +78,26 @@ func GenParams(t *rapid.T, seedTag string) sim.Params {
 	p.Evidence.MinVotesRequired = int64(rapid.IntRange(1, int(p.Evidence.BlockVotesDiff)).Draw(t, "mvr"))
 	p.Evidence.ValidatorReleaseTime = int64(rapid.SampledFrom([]int{0, 0, 1}).Draw(t, "reltime"))
 	p.Evidence.PenaltyBasePercentage = int64(rapid.SampledFrom([]int{30, 10, 33}).Draw(t, "penpct"))
-	p.PropFundingDL = int64(rapid.IntRange(2, 8).Draw(t, "fdl"))
-	p.PropVotingDL = int64(rapid.IntRange(2, 8).Draw(t, "vdl"))
+	p.PropFundingDL = int64(u.Range(2, 8, "fdl"))
+	p.PropVotingDL = int64(u.Range(2, 8, "vdl"))
 	p.PropPassPct = rapid.SampledFrom([]int{51, 67, 80}).Draw(t, "pass")
 	// rewards: devnet defaults or scaled so that cycle / year boundaries fall inside a short history
-	if rapid.Bool().Draw(t, "rewscaled") {
-		p.RewardCycle = int64(rapid.IntRange(2, 6).Draw(t, "cycle"))
+	if u.N(2, "rewscaled") == 0 {
+		p.RewardCycle = int64(u.Range(2, 6, "cycle"))
 		p.RewardEstSecs = p.RewardCycle * int64(rapid.SampledFrom([]int{5, 17, 60}).Draw(t, "estper"))
 		p.RewardCloseWin = int64(rapid.SampledFrom([]int{30, 120, 600}).Draw(t, "closewin"))
 		p.RewardYearShares = []string{"1000000000000000000000", "500000000000000000000"}[:rapid.IntRange(1, 2).Draw(t, "nyears")]
 		p.RewardBurnout = "50000000000000000"
 	}
-	p.RewardInterval = int64(rapid.IntRange(1, 5).Draw(t, "rewint"))
+	p.RewardInterval = int64(u.Range(1, 5, "rewint"))
 	p.RewardPoolFund = rapid.SampledFrom([]string{"0", "1000000000000000000000000", "7"}).Draw(t, "poolfund")
-	if rapid.IntRange(0, 3).Draw(t, "predeleg") == 0 {
+	if u.N(4, "predeleg") == 0 {
 		n := rapid.IntRange(1, 3).Draw(t, "npre")
 		for i := 0; i < n; i++ {
 			p.PreDelegations = append(p.PreDelegations, sim.PreDeleg{User: i, Amount: fmt.Sprintf("%d000000000000000000", rapid.IntRange(1, 500).Draw(t, "preamt"))})
 		}
 	}
-	if rapid.IntRange(0, 3).Draw(t, "preeth") == 0 {
+	if u.N(4, "preeth") == 0 {
 		p.PreEthBalances = append(p.PreEthBalances, sim.PreBal{User: 0, Cur: "ETH", Amount: "500000"}, sim.PreBal{User: 1, Cur: "TTC", Amount: "700000"})
 	}
 	return p
